@@ -298,6 +298,45 @@ func (vc *VC) assumeG(guard, t string) {
 	vc.emit("(assert (=> " + guard + " " + t + "))")
 }
 
+// assumeNamed assumes a (callee) postcondition and gives each of its large quantified conjuncts a name, so that
+// a later obligation asking for the very same formula (up to bound-variable numbering) is discharged by name
+func (vc *VC) assumeNamed(guard, t string) {
+	if t == "true" || t == "" {
+		return
+	}
+	if len(t) <= 200 || !strings.Contains(t, "(forall") {
+		vc.assumeG(guard, t)
+		return
+	}
+	if vc.named == nil {
+		vc.named = map[string]string{}
+	}
+	var rest []string
+	for _, c := range splitAnd(t) {
+		if len(c) > 200 && strings.Contains(c, "(forall") {
+			norm := normFormula(c)
+			p, ok := vc.named[norm]
+			if !ok {
+				p = vc.fresh("P", "Bool")
+				vc.lineTag[len(vc.lineTag)-1] = -1
+				vc.emit("(assert (=> " + p + " " + c + "))")
+				vc.named[norm] = p
+			}
+			rest = append(rest, p)
+			if guard == "" || guard == "true" {
+				rest = append(rest, c)
+			}
+		} else {
+			rest = append(rest, c)
+		}
+	}
+	if len(rest) == 1 {
+		vc.assumeG(guard, rest[0])
+	} else {
+		vc.assumeG(guard, "(and "+strings.Join(rest, " ")+")")
+	}
+}
+
 func (vc *VC) comment(s string) {
 	vc.emit("; " + strings.ReplaceAll(s, "\n", " "))
 }
@@ -527,9 +566,29 @@ func (vc *VC) heapTypeAxiom(name, term string, prelude bool, allocTerm string) {
 		// the number of keys of a map is never negative
 		ms := strings.TrimSuffix(strings.TrimPrefix(vc.heapSort[name], "(Array Int "), ")")
 		ax := "(assert (forall ((r Int)) (! (>= (" + ms + "__card (select " + term + " r)) 0) :pattern ((select " + term + " r)))))"
+		// every reference stored in an existing map of the entry state is allocated
+		vt := name[strings.Index(name, "=>")+2:]
+		if allocTerm != "" && (strings.HasPrefix(vt, "*") || strings.HasPrefix(vt, "map[") || strings.HasPrefix(vt, "chan ")) {
+			if ks := vc.S.mapKeySort[ms]; ks != "" {
+				ax += "\n(assert (forall ((r Int) (k " + ks + ")) (! (=> (and (< r " + allocTerm + ") (select (" + ms + "__dom (select " + term + " r)) k)) (< (select (" + ms + "__val (select " + term + " r)) k) " + allocTerm + ")) :pattern ((select (" + ms + "__val (select " + term + " r)) k)) :qid mapvalalloc)))"
+			}
+		}
 		// the nil map (reference 0) is empty in every state: it is never written (a write panics)
 		if ks := vc.S.mapKeySort[ms]; ks != "" && os.Getenv("GOVC_NONILMAP") == "" {
 			ax += "\n(assert (= (" + ms + "__card (select " + term + " 0)) 0))"
+			// a map with a positive number of keys has a key (witness function), one with none has an empty key set
+			wd := "(declare-fun mapwit_" + ms + " (" + ms + ") " + ks + ")"
+			dup := false
+			for _, d := range vc.S.decls {
+				if d == wd {
+					dup = true
+				}
+			}
+			if !dup {
+				vc.S.decls = append(vc.S.decls, wd)
+			}
+			ax += "\n(assert (forall ((r Int)) (! (=> (> (" + ms + "__card (select " + term + " r)) 0) (select (" + ms + "__dom (select " + term + " r)) (mapwit_" + ms + " (select " + term + " r)))) :pattern ((" + ms + "__card (select " + term + " r))) :qid mapwit)))"
+			ax += "\n(assert (forall ((r Int) (k " + ks + ")) (! (=> (select (" + ms + "__dom (select " + term + " r)) k) (> (" + ms + "__card (select " + term + " r)) 0)) :pattern ((select (" + ms + "__dom (select " + term + " r)) k)) :qid mapnonempty)))"
 			ax += "\n(assert (forall ((k " + ks + ")) (! (not (select (" + ms + "__dom (select " + term + " 0)) k)) :pattern ((select (" + ms + "__dom (select " + term + " 0)) k)) :qid nilmap)))"
 		}
 		if prelude {
@@ -573,10 +632,23 @@ func (vc *VC) heapTypeAxiom(name, term string, prelude bool, allocTerm string) {
 		return
 	}
 	var ax string
+	body := "(and " + strings.Join(fs, " ") + ")"
+	if allocTerm != "" {
+		// only cells that exist: an object allocated later is described through the same heap term
+		var gen, al []string
+		for _, f := range fs {
+			if strings.HasSuffix(f, " "+allocTerm+")") && strings.HasPrefix(f, "(< ") {
+				al = append(al, f)
+			} else {
+				gen = append(gen, f)
+			}
+		}
+		body = "(and " + strings.Join(append(gen, "(=> (< r "+allocTerm+") (and true "+strings.Join(al, " ")+"))"), " ") + ")"
+	}
 	if strings.HasPrefix(name, "A:") {
-		ax = "(assert (forall ((r Int) (i Int)) (! (and " + strings.Join(fs, " ") + ") :pattern (" + sel + "))))"
+		ax = "(assert (forall ((r Int) (i Int)) (! " + body + " :pattern (" + sel + "))))"
 	} else {
-		ax = "(assert (forall ((r Int)) (! (and " + strings.Join(fs, " ") + ") :pattern (" + sel + "))))"
+		ax = "(assert (forall ((r Int)) (! " + body + " :pattern (" + sel + "))))"
 	}
 	if prelude {
 		vc.epochDecls = append(vc.epochDecls, ax)
